@@ -9,34 +9,81 @@ definition-variable / constant tables produced by the model of `new_fresh_symbol
 namespace PySMT.C11.Proofs
 open PySMT.CNF
 
-/-- hypotheses about the definition symbols: `u` inverts `key` on the sub-formulas that receive a
-symbol (so `key` is injective there) and no symbol of the input is a definition symbol -/
+/-- hypotheses about the definition symbols: `u` inverts `key` on the nodes of the Boolean skeleton that receive a
+symbol (so `key` is injective there), no symbol of the input is a definition symbol, and the definition symbols
+are Boolean constant symbols -/
 structure KeysFresh (E : Env) (u : Sym → Option Term) (t : Term) : Prop where
-  inv   : ∀ h ∈ t.subterms, wantsKey h = true → u (E.key h) = some h
+  inv   : ∀ h ∈ boolNodes t, wantsKey h = true → u (E.key h) = some h
   fresh : ∀ s ∈ t.fv, u s = none
+  bool  : ∀ k g, u k = some g → k.params = [] ∧ k.ret = .bool
 
 theorem KeysFresh.notFree {E : Env} {u : Sym → Option Term} {t : Term} (H : KeysFresh E u t) :
-    ∀ h ∈ t.subterms, wantsKey h = true → E.key h ∉ t.fv := by
+    ∀ h ∈ boolNodes t, wantsKey h = true → E.key h ∉ t.fv := by
   intro h hh hw hmem
   have := H.inv h hh hw
   rw [H.fresh _ hmem] at this
   cases this
 
+/-- the manager knows the symbols of the input -/
+def Knows (s : Supply) (t : Term) : Prop := ∀ x ∈ t.fv, x.name ∈ s.used
+
+theorem knows_exact (t : Term) : Knows ⟨t.fv.map (·.name), 0⟩ t := fun x hx => List.mem_map.mpr ⟨x, hx, rfl⟩
+
+/-- `CNFizer` in a manager in any state that knows the symbols of the input -/
+theorem keysFresh_in (σ : Term → Term) (s : Supply) (t : Term) (hs : Knows s t) :
+    KeysFresh (CNF.envIn σ s t) (unkey (CNF.keyTableIn s t)) t :=
+  ⟨fun h hh hw => (keyTableIn_spec s t hs).1 h (boolNodes_subterms t h hh) hw, (keyTableIn_spec s t hs).2.1,
+   (keyTableIn_spec s t hs).2.2⟩
+
+/-- `PolarityCNFizer` in such a manager: its own supply (only the Boolean skeleton receives symbols) -/
+theorem keysFresh_pol_in (σ : Term → Term) (s : Supply) (t : Term) (hs : Knows s t) :
+    KeysFresh (PolCNF.envIn σ s t) (unkey (PolCNF.keyTableIn s t)) t :=
+  ⟨(polKeyTableIn_spec s t hs).1, (polKeyTableIn_spec s t hs).2.1, (polKeyTableIn_spec s t hs).2.2⟩
+
 theorem keysFresh_std (σ : Term → Term) (t : Term) : KeysFresh (stdEnv σ t) (unkey (keyTable t)) t :=
-  ⟨(keyTable_spec t).1, (keyTable_spec t).2⟩
+  keysFresh_in σ _ t (knows_exact t)
+
+theorem keysFresh_pol_std (σ : Term → Term) (t : Term) :
+    KeysFresh (PolCNF.stdEnv σ t) (unkey (PolCNF.keyTable t)) t :=
+  keysFresh_pol_in σ _ t (knows_exact t)
+
+theorem lookupKey_bool (tbl : List (Term × Sym)) (h : ∀ e ∈ tbl, e.2.params = [] ∧ e.2.ret = .bool) (g : Term) :
+    (lookupKey tbl g).params = [] ∧ (lookupKey tbl g).ret = .bool := by
+  unfold lookupKey
+  cases hf : tbl.find? (fun e => e.1 == g) with
+  | none => exact ⟨rfl, rfl⟩
+  | some e => exact h e (List.mem_of_find?_eq_some hf)
+
+theorem keyBool_in (σ : Term → Term) (s : Supply) (t : Term) : KeyBool (CNF.envIn σ s t) :=
+  fun g => lookupKey_bool _ (assignKeys_bool fvName _ s) g
+
+theorem keyBool_pol_in (σ : Term → Term) (s : Supply) (t : Term) : KeyBool (PolCNF.envIn σ s t) :=
+  fun g => lookupKey_bool _ (assignKeys_bool fvName _ s) g
+
+/-! ## well-formedness of the extended interpretation -/
+
+theorem ext_wf {u : Sym → Option Term} {I : Interp} (hI : I.WF)
+    (hb : ∀ k g, u k = some g → k.params = [] ∧ k.ret = .bool) : (ext u I).WF := by
+  refine ⟨?_, hI.fn, hI.dom_ne, hI.dom_sort⟩
+  intro s
+  simp only [ext]
+  cases hu : u s with
+  | none => exact hI.sym s
+  | some g => simp only; rw [(hb s g hu).2]; rfl
 
 /-! ## CNFizer -/
 
-theorem cnf_shape (E : Env) (hσ : SimpShape E.simp) (t : Term) (hwf : t.wf = true) (R : List Clause)
-    (hR : CNF.convert E t = some R) : shapeClauses R = true :=
-  convert_shape E hσ t hwf R hR
+theorem cnf_shape (E : Env) (hσ : SimpShape E.simp) (hkb : KeyBool E) (t : Term) (hwf : t.wf = true)
+    (hty : t.typeOf = some .bool) (R : List Clause) (hR : CNF.convert E t = some R) :
+    shapeClauses R = true ∧ shapeFormula (formulaOf R) = true :=
+  ⟨convert_shape E hσ hkb t hwf hty R hR, shapeFormula_of_clauses R (convert_shape E hσ hkb t hwf hty R hR)⟩
 
 theorem cnf_complete (E : Env) (u : Sym → Option Term) (t : Term) (I : Interp) (R : List Clause)
     (hkeys : KeysFresh E u t) (hσ : SimpSound E.simp t I) (hR : CNF.convert E t = some R)
     (hI : eval I t = .b true) :
-    eval (ext u I) (formulaOf R) = .b true ∧ SameOn t I (ext u I) :=
+    eval (ext u I) (formulaOf R) = .b true ∧ SameOn t I (ext u I) ∧ (I.WF → (ext u I).WF) :=
   ⟨(eval_formulaOf _ _).mpr (CNF.convert_complete E u I t R hkeys.inv hkeys.fresh hσ hR ((tv_iff _ _).mpr hI)),
-   ext_sameOn I t hkeys.fresh⟩
+   ext_sameOn I t hkeys.fresh, fun h => ext_wf h hkeys.bool⟩
 
 theorem cnf_sound (E : Env) (u : Sym → Option Term) (t : Term) (J : Interp) (R : List Clause)
     (hkeys : KeysFresh E u t) (hs : SimpSym E.simp) (hσ : SimpSound E.simp t J)
@@ -45,16 +92,18 @@ theorem cnf_sound (E : Env) (u : Sym → Option Term) (t : Term) (J : Interp) (R
 
 /-! ## PolarityCNFizer -/
 
-theorem polCnf_shape (E : Env) (hσ : SimpShape E.simp) (t : Term) (hwf : t.wf = true) (hqf : t.isQF = true)
-    (R : List Clause) (hR : PolCNF.convert E t = some R) : shapeClauses R = true :=
-  PolCNF.convert_shape E hσ t hwf hqf R hR
+theorem polCnf_shape (E : Env) (hσ : SimpShape E.simp) (hkb : KeyBool E) (t : Term) (hwf : t.wf = true)
+    (hqf : t.isQF = true) (hty : t.typeOf = some .bool) (R : List Clause) (hR : PolCNF.convert E t = some R) :
+    shapeClauses R = true ∧ shapeFormula (formulaOf R) = true :=
+  ⟨PolCNF.convert_shape E hσ hkb t hwf hqf hty R hR,
+   shapeFormula_of_clauses R (PolCNF.convert_shape E hσ hkb t hwf hqf hty R hR)⟩
 
 theorem polCnf_complete (E : Env) (u : Sym → Option Term) (t : Term) (I : Interp) (R : List Clause)
     (hkeys : KeysFresh E u t) (hσ : SimpSound E.simp t I) (hR : PolCNF.convert E t = some R)
     (hI : eval I t = .b true) :
-    eval (ext u I) (formulaOf R) = .b true ∧ SameOn t I (ext u I) :=
+    eval (ext u I) (formulaOf R) = .b true ∧ SameOn t I (ext u I) ∧ (I.WF → (ext u I).WF) :=
   ⟨(eval_formulaOf _ _).mpr (PolCNF.convert_complete E u I t R hkeys.inv hkeys.fresh hσ hR ((tv_iff _ _).mpr hI)),
-   ext_sameOn I t hkeys.fresh⟩
+   ext_sameOn I t hkeys.fresh, fun h => ext_wf h hkeys.bool⟩
 
 theorem polCnf_sound (E : Env) (u : Sym → Option Term) (t : Term) (J : Interp) (R : List Clause)
     (hkeys : KeysFresh E u t) (hs : SimpSym E.simp) (hσ : SimpSound E.simp t J)
@@ -65,14 +114,21 @@ theorem polCnf_sound (E : Env) (u : Sym → Option Term) (t : Term) (J : Interp)
 
 open PySMT.Ackermann
 
-/-- hypotheses about the fresh constants -/
+/-- hypotheses about the fresh constants: `u` inverts `key` on the applications of the input and maps nothing else
+to an application, no symbol of the input is a fresh constant, the constant of an application has its sort -/
 structure ConstsFresh (E : Ackermann.Env) (u : Sym → Option Term) (t : Term) : Prop where
   inv   : ∀ a ∈ apps t, u (E.key a) = some a
   fresh : ∀ s ∈ t.fv, u s = none
   typed : KeyTyped E t
+  range : ∀ k a, u k = some a → a ∈ apps t ∧ E.key a = k
+
+theorem constsFresh_in (s : Supply) (t : Term) (hs : Knows s t) :
+    ConstsFresh (Ackermann.envIn s t) (unkey (constTableIn s t)) t :=
+  ⟨(constTableIn_spec s t hs).1, (constTableIn_spec s t hs).2.1, (constTableIn_spec s t hs).2.2.1,
+   (constTableIn_spec s t hs).2.2.2⟩
 
 theorem constsFresh_std (t : Term) : ConstsFresh (Ackermann.stdEnv t) (unkey (constTable t)) t :=
-  ⟨(constTable_spec t).1, (constTable_spec t).2.1, (constTable_spec t).2.2⟩
+  constsFresh_in _ t (knows_exact t)
 
 theorem ack_shape (E : Ackermann.Env) (t : Term) : noApp (ack E t) = true :=
   (noApp_iff _).mpr (ack_noApp E t)
@@ -84,13 +140,60 @@ theorem wf_subterm : (t : Term) → t.wf = true → ∀ h ∈ t.subterms, h.wf =
     · exact hwf
     · exact wf_subterm b (wf_args hwf b hb) h hhb
 
+theorem extA_wf {E : Ackermann.Env} {u : Sym → Option Term} {t : Term} {I : Interp} (hI : I.WF)
+    (hwf : t.wf = true) (hc : ConstsFresh E u t) : (extA u I).WF := by
+  refine ⟨?_, hI.fn, hI.dom_ne, hI.dom_sort⟩
+  intro s
+  simp only [extA]
+  cases hu : u s with
+  | none => exact hI.sym s
+  | some a =>
+    simp only
+    obtain ⟨ha, hk⟩ := hc.range s a hu
+    have hawf := wf_subterm t hwf a (apps_subterms t a ha)
+    have hop := apps_op t a ha
+    cases a with
+    | node op args p =>
+      simp only [Term.op] at hop
+      subst hop
+      obtain ⟨f, rfl, _, _, hty⟩ := wt_function (Term.wf_wt _ hawf)
+      have hret : s.ret = f.ret := by rw [← hk, (hc.typed _ ha).2]; rfl
+      rw [hret]
+      exact eval_hasSort _ hawf _ hty I hI
+
+theorem recover_wf {E : Ackermann.Env} {t : Term} {J : Interp} (hJ : J.WF) (hwf : t.wf = true)
+    (htyped : KeyTyped E t) : (withFns J (recover E t J)).WF := by
+  refine ⟨hJ.sym, ?_, hJ.dom_ne, hJ.dom_sort⟩
+  intro f vs
+  simp only [withFns, recover]
+  cases hfind : (appsD t).find? (fun a => a.payload == .sym f &&
+      a.args.map (fun x => eval J (sub E x)) == vs) with
+  | none => exact hJ.fn f vs
+  | some a =>
+    simp only
+    have hp := List.find?_some hfind
+    have ha : a ∈ apps t := (mem_dedup _ _).mp (List.mem_of_find?_eq_some hfind)
+    simp only [Bool.and_eq_true, beq_iff_eq] at hp
+    have hop := apps_op t a ha
+    cases a with
+    | node op args p =>
+      simp only [Term.op] at hop
+      simp only [Term.payload] at hp
+      subst hop
+      have hpp : p = .sym f := hp.1
+      subst hpp
+      have := hJ.sym (E.key (Term.node .function args (.sym f)))
+      rw [(htyped _ ha).2] at this
+      exact this
+
 theorem ack_complete (E : Ackermann.Env) (u : Sym → Option Term) (t : Term) (I : Interp)
     (hwf : t.wf = true) (hqf : t.isQF = true) (hI : I.WF) (hconsts : ConstsFresh E u t)
     (ht : eval I t = .b true) :
-    eval (extA u I) (ack E t) = .b true ∧ SameOn t I (extA u I) := by
+    eval (extA u I) (ack E t) = .b true ∧ SameOn t I (extA u I) ∧ (extA u I).WF := by
   refine ⟨(tv_iff _ _).mp (ack_complete_core E u I t
     { wt := Term.wf_wt t hwf, qf := hqf, key := hconsts.inv, fresh := hconsts.fresh, keyTy := hconsts.typed,
-      bool := fun x hx hty => eval_bool_of_wf (wf_subterm t hwf x hx) hty hI } ((tv_iff _ _).mpr ht)), ?_⟩
+      bool := fun x hx hty => eval_bool_of_wf (wf_subterm t hwf x hx) hty hI } ((tv_iff _ _).mpr ht)), ?_,
+    extA_wf hI hwf hconsts⟩
   refine ⟨?_, rfl, rfl, rfl, rfl⟩
   intro s hs
   simp only [extA, hconsts.fresh s hs]
@@ -98,11 +201,11 @@ theorem ack_complete (E : Ackermann.Env) (u : Sym → Option Term) (t : Term) (I
 theorem ack_sound (E : Ackermann.Env) (t : Term) (J : Interp)
     (hwf : t.wf = true) (hqf : t.isQF = true) (hJ : J.WF) (htyped : KeyTyped E t)
     (h : eval J (ack E t) = .b true) :
-    eval (withFns J (recover E t J)) t = .b true :=
-  (tv_iff _ _).mp (ack_sound_core E J t
+    eval (withFns J (recover E t J)) t = .b true ∧ (withFns J (recover E t J)).WF :=
+  ⟨(tv_iff _ _).mp (ack_sound_core E J t
     { wt := Term.wf_wt t hwf, qf := hqf, keyTy := htyped,
       boolKey := fun a _ hret => Val.hasSort_bool (by rw [← hret]; exact hJ.sym _),
-      holds := (tv_iff _ _).mpr h })
+      holds := (tv_iff _ _).mpr h }), recover_wf hJ hwf htyped⟩
 
 /-- the recovered interpretation differs from `J` only in the functions -/
 theorem ack_sound_same (E : Ackermann.Env) (t : Term) (J : Interp) :
